@@ -34,7 +34,7 @@ BASE_WEIGHTS = {
 PROFILES = {
     "C01": {"geo_image": 2, "mk_dup": 2},
     "C02": {"retype": 4, "rm_parent": 6, "rm_ws": 8, "set_flag": 6, "move": 7, "copy": 8, "close_reopen": 6, "move_data": 6, "copy_extent": 5, "pg_add": 6},
-    "C05": {"add_comment": 5, "add_file": 3, "rm_ws": 12, "rm_parent": 9, "pg_add": 8, "pg_rm": 4, "pg_new": 5, "lookup": 6, "copy": 4, "set_flag": 5},
+    "C05": {"add_comment": 5, "add_file": 3, "rm_ws": 12, "rm_parent": 9, "pg_add": 13, "pg_rm": 4, "pg_new": 6, "lookup": 6, "copy": 4, "set_flag": 5, "rm_all": 1, "add_data": 14},
     "C06": {"mk_dup": 8, "copy": 10, "rm_ws": 6, "rm_parent": 5, "lookup": 4},
     "C09": {"observe": 4, "list": 4, "type_edit": 6, "retype": 8, "copy": 10, "pg_add": 7, "add_data": 14, "geo_image": 4, "add_file": 3, "mk_dup": 5},
     "C12": {"copy": 16, "set_values": 7, "rename": 6, "set_meta": 6, "pg_add": 6, "copy_extent": 6, "pg_new": 3, "geo_image": 3},
@@ -1066,7 +1066,7 @@ class World:
             t = self.target(rng, h, "entity", lambda r: r["uid"] in loaded and self._deletable(model, r["uid"]))
             if t is not None:
                 return t
-        if rng.random() < 0.35:
+        if rng.random() < (0.5 if self.prop == "C05" else 0.35):
             model = self.h[h].model
             grouped = {d for rec in model.recs.values() for pg in (rec.get("pgs") or {}).values() for d in pg["props"]}
             t = self.target(rng, h, "entity", lambda r: r["uid"] in grouped)
@@ -1216,7 +1216,7 @@ class World:
             other = sorted(pg["name"] for pg in model.recs[rec["parent"]].get("pgs", {}).values() if pg["assoc"] != rec["attrs"]["Association"])
             if other:
                 name = rng.choice(other)      # a group of the other association on the same object
-        return {"t": t, "pg": name, "cross": cross, "foreign": rng.randrange(1000) if rng.random() < 0.2 else None, "fform": rng.randrange(3)}
+        return {"t": t, "pg": name, "cross": cross, "foreign": rng.randrange(1000) if rng.random() < (0.25 if self.prop == "C02" else 0.08) else None, "fform": rng.randrange(3)}
 
     def _pg_add_foreign(self, op, h, uid):
         """The identifier of a data set of ANOTHER object offered to a property group: ignored or refused, never listed."""
